@@ -254,6 +254,73 @@ def h_retarget(eng, fmt, pie, a_int, b_int, request):
                   finding="C18-return-edges-not-updated")
 
 
+def h_retarget_arm64(eng, pie, a_int, b_int):
+    """Fixed-width ISA: the operand of an instruction starts at the instruction's first byte, so the expression of the
+    second instruction of a block sits exactly where the first one ends."""
+    from gtirb_rewriting import RewritingContext, _auxdata
+
+    ir = gtirb.IR()
+    m = gtirb.Module(name="m", isa=gtirb.Module.ISA.ARM64, ir=ir, byte_order=gtirb.Module.ByteOrder.Little,
+                     file_format=gtirb.Module.FileFormat.ELF)
+    _auxdata.binary_type.set(m, ["DYN"] if pie else ["EXEC"])
+    text = gtirb.Section(name=".text", module=m, flags={gtirb.Section.Flag.Executable, gtirb.Section.Flag.Readable,
+                                                        gtirb.Section.Flag.Loaded, gtirb.Section.Flag.Initialized})
+    NOP, BL, RET = bytes.fromhex("1f2003d5"), bytes.fromhex("00000094"), bytes.fromhex("c0035fd6")
+    ADRP, ADD = bytes.fromhex("00000090"), bytes.fromhex("00000091")
+    chunks = [("u_call", NOP + BL), ("u_next", NOP + RET), ("u_ref", ADRP + ADD + RET), ("v_call", NOP + BL),
+              ("v_next", RET), ("fa", RET), ("fb", RET), ("fc", RET)]
+    bi = gtirb.ByteInterval(contents=b"".join(c for _, c in chunks), address=0x10000, section=text)
+    blk, off = {}, 0
+    for name, c in chunks:
+        blk[name] = gtirb.CodeBlock(offset=off, size=len(c), byte_interval=bi)
+        off += len(c)
+
+    def make_symbol(name, internal, block):
+        return gtirb.Symbol(name, payload=block if internal else gtirb.ProxyBlock(module=m), module=m)
+    A = make_symbol("A", a_int, blk["fa"])
+    B = make_symbol("B", b_int, blk["fb"])
+    T = make_symbol("T", a_int, blk["fc"])
+
+    def code_ref_attrs(internal, lo12):
+        # independent transcription of the ARM64 PIE table: page reference -> GOT when external, :lo12: part keeps LO12
+        if not pie:
+            return {A_.LO12} if lo12 else set()
+        base = {A_.LO12} if lo12 else set()
+        return base if internal else base | {A_.GOT}
+    addend = eng.int("addend")
+    e_call = gtirb.SymAddrConst(0, A, set())
+    e_adrp = gtirb.SymAddrConst(addend, A, code_ref_attrs(a_int, False))
+    e_add = gtirb.SymAddrConst(addend, A, code_ref_attrs(a_int, True))
+    e_vcall = gtirb.SymAddrConst(0, T, set())
+    bi.symbolic_expressions[blk["u_call"].offset + 4] = e_call
+    bi.symbolic_expressions[blk["u_ref"].offset] = e_adrp
+    bi.symbolic_expressions[blk["u_ref"].offset + 4] = e_add
+    bi.symbolic_expressions[blk["v_call"].offset + 4] = e_vcall
+    cfg = ir.cfg
+    cfg.add(gtirb.Edge(blk["u_call"], A.referent, lbl(ET.Call)))
+    cfg.add(gtirb.Edge(blk["u_call"], blk["u_next"], lbl(ET.Fallthrough)))
+    cfg.add(gtirb.Edge(blk["v_call"], T.referent, lbl(ET.Call)))
+    cfg.add(gtirb.Edge(blk["v_call"], blk["v_next"], lbl(ET.Fallthrough)))
+    ctx = RewritingContext(m, [])
+    ctx.retarget_symbol_uses(A, B)
+    ctx.apply()
+    se = bi.symbolic_expressions
+    got_call = se[blk["u_call"].offset + 4]
+    eng.check(got_call.symbol is B and set(got_call.attributes) == set(),
+              "bl operand after the retarget: %r (a branch operand has no attribute rule on ARM64)" % (got_call,))
+    for name, o, lo12 in (("adrp", blk["u_ref"].offset, False), ("add :lo12:", blk["u_ref"].offset + 4, True)):
+        g = se[o]
+        eng.check(g.symbol is B and eng.must(g.offset == addend), "%s operand does not name B with the same addend: %r" % (name, g))
+        want = code_ref_attrs(b_int, lo12) if pie else code_ref_attrs(a_int, lo12)
+        eng.check(set(g.attributes) == want, "%s operand attributes %s, expected %s" % (name, sorted(map(str, g.attributes)), sorted(map(str, want))))
+    gv = se[blk["v_call"].offset + 4]
+    eng.check(gv.symbol is T and set(gv.attributes) == set(), "bystander's bl operand changed: %r" % (gv,))
+    calls = [e.target for e in blk["u_call"].outgoing_edges if e.label.type == ET.Call]
+    eng.check(len(calls) == 1 and calls[0] is B.referent, "call edge of 'nop; bl A' does not lead to B's referent after the retarget")
+    vcalls = [e.target for e in blk["v_call"].outgoing_edges if e.label.type == ET.Call]
+    eng.check(len(vcalls) == 1 and vcalls[0] is T.referent, "bystander's call edge changed")
+
+
 def classify(rec):
     return "violation"
 
@@ -272,7 +339,13 @@ def make_check(tier):
                 params=dict(fmt=fmt, pie=pie, a_int=True, b_int=True, request="invalid"))
         chk.add("retarget/%s%s/into_data" % (fmt, "-pie" if pie else ""), h_retarget,
                 params=dict(fmt=fmt, pie=pie, a_int=True, b_int=True, request="into_data"))
+    for pie in (True, False):
+        for a_int in (True, False):
+            for b_int in (True, False):
+                chk.add("retarget-arm64/elf%s/A%s-B%s" % ("-pie" if pie else "", "int" if a_int else "ext", "int" if b_int else "ext"),
+                        h_retarget_arm64, params=dict(pie=pie, a_int=a_int, b_int=b_int))
     chk.bounds = {
+        "ARM64": "ELF PIE / non-PIE: 'nop; bl A' (operand at the first byte of the second instruction), adrp/add :lo12: pair, bystander call",
         "uses of A": "direct call, direct jump, lea (data reference in code), data word, CFI personality and LSDA, symbolForwarding value; "
                      "a bystander symbol with the same kinds of uses",
         "configurations": "x86-64 ELF PIE / ELF non-PIE / PE; A and B internal or external in all four combinations; one retarget, "
@@ -280,6 +353,6 @@ def make_check(tier):
         "symbolic": "addends of the code reference and of the data word (any integer)",
         "concrete": "instruction bytes and addresses (the real capstone decoder classifies the access)",
     }
-    chk.assumptions = ["the attribute table in expected_attrs() is an independent transcription of the x86-64 rules; ARM64/MIPS are not covered",
+    chk.assumptions = ["the attribute tables in expected_attrs() / code_ref_attrs() are independent transcriptions of the x86-64 and ARM64 rules; MIPS is not covered",
                        "the solver's part is small here (addends); use kinds and configurations are enumerated"]
     return chk
